@@ -82,6 +82,37 @@ def check_commits(res, tr):
             res.ob("commit_only_processed")
         elif k == "commit_request_done":
             outstanding = max(0, outstanding - 1)
+    # on the wire: an OffsetCommit frame is written only while the commit request it belongs to is outstanding (a
+    # request the client has given up -- timed out, cancelled by stop() -- must not reach the coordinator later and
+    # move the stored position back)
+    from .. import refproto as R_
+    spans = []
+    for idx, ev in enumerate(log):
+        if ev[0] == "commit_issued":
+            spans.append([ev[2], idx, None])
+        elif ev[0] == "commit_request_done":
+            for sp in reversed(spans):
+                if sp[2] is None:
+                    sp[2] = idx
+                    break
+    for idx, ev in enumerate(log):
+        if ev[0] != "c2s":
+            continue
+        try:
+            pr = R_.parse_request(ev[3][4:])
+        except Exception:
+            continue
+        if pr["api_name"] != "OffsetCommit":
+            continue
+        for t_ in pr["body"]["topics"]:
+            for p_ in t_["partitions"]:
+                v = p_["offset"]
+                res.hit("commit_frames_checked")
+                if not any(sp[0] == v and sp[1] <= idx and (sp[2] is None or idx <= sp[2]) for sp in spans):
+                    res.violate("commit-frame/written-after-its-request-ended", "an OffsetCommit frame carrying %r was "
+                                "written when no commit request for that value was outstanding (values ever issued: "
+                                "%r)" % (v, [sp[0] for sp in spans][-6:]))
+                res.ob("commit_frame_belongs_to_a_live_request")
     # retries
     vals = [e["value"] for e in tr.commit_issues]
     res.hit("commit_retries", sum(1 for a, b in zip(tr.commit_issues, tr.commit_issues[1:])
@@ -171,6 +202,13 @@ def crash_and_resume(sc, k, res):
             if dc.active():
                 dc.cancel()
     w.net.pending_attempts.clear()
+    # the resume clause is judged on a healthy cluster: broker outages of the first life end with it
+    for dc in list(w.clock.getDelayedCalls()):
+        if getattr(dc.func, "sim_label", "").startswith(("fault.stop_broker", "fault.start_broker")) and dc.active():
+            dc.cancel()
+    for n_, b_ in cl.brokers.items():
+        if not b_.up:
+            cl.start_broker(n_)
     stored = cl.offsets.get((cons.GROUP, cons.TOPIC, cons.PART))
     # --- second incarnation
     delivered = []
@@ -186,6 +224,10 @@ def crash_and_resume(sc, k, res):
     from afkak import OFFSET_COMMITTED
     w.net.log.append(("second_start", w.clock.seconds()))
     cl.faults.rules = []
+    if (sc["seed"] + k) % 3 == 0:
+        # the coordinator is still loading when the new incarnation asks where to resume
+        cl.faults.add(dict(api="OffsetFetch", nth=[0], action=dict(kind="error", code=(14, 15, 16)[(sc["seed"] + k) % 9 // 3])))
+        res.hit("resume_with_coordinator_error_first")
     d = c2.start(OFFSET_COMMITTED)
     d.addErrback(lambda f: None)
     try:
@@ -251,6 +293,20 @@ def run(spec):
         # likewise: starting at the log's end points although the group has a stored offset is an application
         # rewind / skip, outside "resume from the committed position"
         sc["stored"] = None
+    # coordinator errors on the commit / offset-fetch path itself (the generic generator draws them rarely)
+    frng = random.Random(spec["seed"] ^ 0xE14)
+    if sc["cfg"]["group"] and frng.random() < 0.5:
+        for _ in range(frng.choice((1, 2))):
+            sc["faults"].append(dict(api="OffsetCommit", nth=[frng.randint(0, 4)],
+                                     action=dict(kind="error", code=frng.choice((14, 14, 15, 16, 7)))))
+    if sc["cfg"]["group"] and frng.random() < 0.35:
+        # the coordinator is unreachable for longer than the client timeout, then comes back: commits issued
+        # meanwhile are abandoned by the client and must not surface later
+        t1 = round(frng.uniform(0.2, 2.5), 3)
+        sc["events"] = list(sc["events"]) + [[t1, "stop_broker", sc["brokers"][0]],
+                                               [round(t1 + sc["cfg"]["timeout"] * frng.choice((1.3, 2.2, 3.5)), 3),
+                                                "start_broker", sc["brokers"][0]]]
+        sc["horizon"] = max(sc["horizon"], t1 + sc["cfg"]["timeout"] * 4 + 4)
     # keep crash scenarios small enough to enumerate often
     tr = run_full(sc, res)
     if tr.capped:
